@@ -48,9 +48,10 @@ Section Sort.
     end.
 
   (* sort(left, right) is only ever called on at least two nodes.  After the loop
-     swap(left, ptr1) puts the last value of less first and the pivot behind less; then
-     `if(left != ptr0) sort(left, ptr0)` (less has >= 2 values) and, with ptr1 advanced past
-     the pivot, `if(ptr1 != right) sort(ptr1, right)` (geq has >= 2 values). *)
+     swap(left, ptr1) puts the last value of less first and the pivot behind less; the nodes
+     left..ptr0 hold less (sorted further if it has >= 2 values), and, with ptr1 advanced past the
+     pivot, ptr1..right hold geq (sorted further if it has >= 2 values).  The two sides are disjoint
+     runs of nodes, so the order in which they are sorted does not matter for the values. *)
   Fixpoint qsort (fuel : nat) (l : list Z) : option (list Z) :=
     match fuel with
     | O => None
@@ -66,6 +67,42 @@ Section Sort.
             | Some a, Some b => Some (a ++ p :: b)
             | _, _ => None
             end
+        end
+    end.
+
+  (* How many frames of QuickSort::sort are live at the deepest point.  The shorter side (fewer values;
+     geq on a tie) is sorted by a recursive call, the longer one by the next round of the for(;;) loop
+     in the same frame. *)
+  Fixpoint qdepth (fuel : nat) (l : list Z) : nat :=
+    match fuel with
+    | O => O
+    | S f =>
+        match l with
+        | [] => O
+        | [x] => O
+        | p :: rest =>
+            let '(lessr, geq) := part p [] [] [] rest in
+            let left := match lessr with [] => [] | m :: ls => m :: frev ls end in
+            let dl := if Nat.leb 2 (length left) then qdepth f left else O in
+            let dg := if Nat.leb 2 (length geq) then qdepth f geq else O in
+            if Nat.ltb (length left) (length geq) then Nat.max (S dl) dg else Nat.max (S dg) dl
+        end
+    end.
+
+  (* the same count for the scheme with two plain recursive calls (List::sort before the repair
+     fixes/C03/03): only for comparison, see SeqSortPtrProofs.qdepth2_sorted_example *)
+  Fixpoint qdepth2 (fuel : nat) (l : list Z) : nat :=
+    match fuel with
+    | O => O
+    | S f =>
+        match l with
+        | [] => O
+        | [x] => O
+        | p :: rest =>
+            let '(lessr, geq) := part p [] [] [] rest in
+            let left := match lessr with [] => [] | m :: ls => m :: frev ls end in
+            S (Nat.max (if Nat.leb 2 (length left) then qdepth2 f left else O)
+                       (if Nat.leb 2 (length geq) then qdepth2 f geq else O))
         end
     end.
 
@@ -91,32 +128,57 @@ Section SortPtr.
     upd j (nth i a 0) (upd i (nth j a 0) a).
 
   (* do { ptr2 = ptr2->next;
-          if(ptr2->value < pivot) { ptr0 = ptr1; ptr1 = ptr1->next; swap(ptr1, ptr2); }
+          if(ptr2->value < pivot) { ptr0 = ptr1; ptr1 = ptr1->next; swap(ptr1, ptr2); ++less; }
+          else ++other;
      } while(ptr2 != right);            `pivot` is a reference to left->value *)
-  Fixpoint qs_loop (fuel left right : nat) (a : list Z) (p0 p1 p2 : nat) : option (list Z * nat * nat) :=
+  Fixpoint qs_loop (fuel left right : nat) (a : list Z) (p0 p1 p2 less other : nat)
+      : option (list Z * nat * nat * nat * nat) :=
     match fuel with
     | O => None
     | S f =>
         let p2 := S p2 in
-        let '(a1, p0', p1') :=
-          if vlt key (nth p2 a 0) (nth left a 0) then (swap_at (S p1) p2 a, p1, S p1) else (a, p0, p1) in
-        if Nat.eqb p2 right then Some (a1, p0', p1') else qs_loop f left right a1 p0' p1' p2
+        let '(a1, p0', p1', less', other') :=
+          if vlt key (nth p2 a 0) (nth left a 0) then (swap_at (S p1) p2 a, p1, S p1, S less, other)
+          else (a, p0, p1, less, S other) in
+        if Nat.eqb p2 right then Some (a1, p0', p1', less', other')
+        else qs_loop f left right a1 p0' p1' p2 less' other'
     end.
 
-  (* static void sort(Item* left, Item* right) *)
-  Fixpoint qs_sort (fuel left right : nat) (a : list Z) : option (list Z) :=
+  (* static void sort(Item* left, Item* right)
+     { for(;;) { <loop>; swap(left, ptr1); if(ptr1 != right) ptr1 = ptr1->next;
+                 if(less < other) { if(left != ptr0) sort(left, ptr0); if(ptr1 == right) return; left = ptr1; }
+                 else { if(ptr1 != right) sort(ptr1, right); if(left == ptr0) return; right = ptr0; } } }
+     The next round of for(;;) is written as a second application of qs_sort (same frame).  Returns the
+     values and the number of frames of sort live at the deepest point (this one included). *)
+  Fixpoint qs_sort (fuel left right : nat) (a : list Z) : option (list Z * nat) :=
     match fuel with
     | O => None
     | S f =>
-        match qs_loop (length a) left right a left left left with
+        match qs_loop (length a) left right a left left left O O with
         | None => None
-        | Some (a1, p0, p1) =>
+        | Some (a1, p0, p1, less, other) =>
             let a2 := swap_at left p1 a1 in                               (* swap(left, ptr1) *)
             let p1' := if Nat.eqb p1 right then p1 else S p1 in           (* if(ptr1 != right) ptr1 = ptr1->next *)
-            match (if Nat.eqb left p0 then Some a2 else qs_sort f left p0 a2) with   (* if(left != ptr0) sort(left, ptr0) *)
-            | None => None
-            | Some a3 => if Nat.eqb p1' right then Some a3 else qs_sort f p1' right a3  (* if(ptr1 != right) sort(ptr1, right) *)
-            end
+            if Nat.ltb less other then
+              match (if Nat.eqb left p0 then Some (a2, O) else qs_sort f left p0 a2) with      (* sort(left, ptr0) *)
+              | None => None
+              | Some (a3, d1) =>
+                  if Nat.eqb p1' right then Some (a3, S d1)                                      (* return *)
+                  else match qs_sort f p1' right a3 with                                        (* left = ptr1 *)
+                       | None => None
+                       | Some (a4, d2) => Some (a4, Nat.max (S d1) d2)
+                       end
+              end
+            else
+              match (if Nat.eqb p1' right then Some (a2, O) else qs_sort f p1' right a2) with  (* sort(ptr1, right) *)
+              | None => None
+              | Some (a3, d1) =>
+                  if Nat.eqb left p0 then Some (a3, S d1)                                        (* return *)
+                  else match qs_sort f left p0 a3 with                                          (* right = ptr0 *)
+                       | None => None
+                       | Some (a4, d2) => Some (a4, Nat.max (S d1) d2)
+                       end
+              end
         end
     end.
 
@@ -124,7 +186,7 @@ Section SortPtr.
      QuickSort::sort(_begin.item, endItem.prev) *)
   Definition sort_ptr (l : list Z) : list Z :=
     if Nat.ltb (length l) 2 then l else
-    match qs_sort (length l) O (length l - 1) l with Some r => r | None => l end.
+    match qs_sort (length l) O (length l - 1) l with Some (r, _) => r | None => l end.
 End SortPtr.
 
 (* ------------------------------------------------------------------------------------- *)
